@@ -52,6 +52,13 @@ DATASETS["skew4"] = ([-3.0, 1.0, 1.5, 2.0], [2.0, -1.0, 0.5, 3.0])
 DATASETS["skew6"] = ([-10.0, 1.0, 2.0, 3.0, 3.5, 4.0], noisy([-10.0, 1.0, 2.0, 3.0, 3.5, 4.0],
                                                               lambda x: 0.5 * x * x - 2 * x + 1, 0.2))
 DATASETS["skewneg5"] = ([7.0, -1.0, -2.0, -2.5, -3.5], [1.0, 2.0, 0.0, -1.0, 4.0])
+# ordinates with (almost) no spread, on healthy abscissae: a horizontal line, a slow drift on a large offset,
+# tiny ordinates - perfectly good fits (slope ~0), although the correlation coefficient is undefined there
+DATASETS["flat5"] = ([1.0, 2.0, 3.0, 4.0, 5.0], [7.0] * 5)
+DATASETS["drift6"] = ([0.0, 1.0, 2.0, 3.0, 4.0, 5.0], [65536.0 + x / 1024.0 for x in range(6)])
+DATASETS["tiny5"] = ([1.0, 2.0, 3.0, 4.0, 6.0], [1e-8, 1.1e-8, 1.2e-8, 1.3e-8, 1.5e-8])
+# basis functions of very different size over the table (sum of squares ratio ~1e16)
+DATASETS["ramp21"] = ([float(i) for i in range(21)], [2e-8 * math.exp(i) + 0.5 * i + 3.0 for i in range(21)])
 DATASETS["big50"] = ([i * 0.5 - 10 for i in range(50)],
                      noisy([i * 0.5 - 10 for i in range(50)], lambda x: 0.3 * x * x - x + 2, 0.5))
 DATASETS["big200"] = ([i * 0.1 for i in range(200)],
@@ -67,6 +74,7 @@ MENU = {
     "cos": lambda x: math.cos(x),
     "sin2": lambda x: math.sin(2.0 * x),
     "exp": lambda x: math.exp(x / 10.0),
+    "expx": lambda x: math.exp(x),
 }
 
 FORMS = ["lists", "tuples", "flat", "copy", "set_used", "yonly", "lent_overwritten", "copy_source_reset"]
@@ -208,11 +216,13 @@ def fit_cases():
                             ("general", ["x"]), ("general", ["one"])):
             for perm in perms[:6]:
                 cases.append({"set": name, "perm": perm, "kind": kind, "basis": names, "form": "lists"})
+    for names in (["expx", "x", "one"], ["x", "expx", "one"], ["one", "x", "expx"], ["expx", "one"], ["x", "expx"]):
+        cases.append({"set": "ramp21", "perm": list(range(21)), "kind": "general", "basis": names, "form": "lists"})
     # every ordered pair / triple of distinct basis functions on 3 sets
     for name in ("quad6", "noisy7", "big50"):
         ident = list(range(len(DATASETS[name][0])))
         for k in (2, 3):
-            for names in itertools.permutations(sorted(MENU), k):
+            for names in itertools.permutations(sorted(m_ for m_ in MENU if m_ != "expx"), k):
                 cases.append({"set": name, "perm": ident, "kind": "general", "basis": list(names),
                               "form": "lists"})
     return cases
@@ -285,7 +295,10 @@ def check_relations(case):
                     break
         except Exception as ex:
             out.append(("noiseless", "noiseless %s data on %s raised %r" % (kind, case["set"], ex), None))
-    # correlation coefficient
+    # correlation coefficient (undefined, and refused by the library, when the ordinates have no spread to
+    # speak of: those sets are here for the fits only)
+    if case["set"] in ("flat5", "drift6", "tiny5"):
+        return out
     try:
         r = cf.correlation_coeff()
         if not (-1.0 - 1e-12 <= r <= 1.0 + 1e-12):
@@ -362,6 +375,11 @@ for _v in (2.7, 1.1, 12.3, 0.1, 1.0 / 3, 1e3 / 7, 999.9, -512.3, 123.456):
     for _n in (3, 6, 7, 9):
         DEGENERATE.append({"xs": [_v] * _n, "ys": [float(i * i % 5) for i in range(_n)],
                            "calls": ["corr", "linear", "quadratic", "general_x1", "general_x2x1", "general_prop"]})
+for _a, _n in ((134.4, 18), (0.1, 5), (2.7, 3), (1e3 / 7, 4), (999.9, 2), (1.0 / 3, 7), (12.3, 6)):
+    DEGENERATE.append({"xs": [_a, -_a] * _n, "ys": [float((i * 7) % 5) - 0.1 * i for i in range(2 * _n)],
+                       "calls": ["quadratic", "general_x2x1"]})
+    DEGENERATE.append({"xs": [_a] * _n + [-_a] * _n, "ys": [float((i * 3) % 4) for i in range(2 * _n)],
+                       "calls": ["quadratic", "general_x2x1"]})
 for _xs in ([1.0, 2.5, 4.0, 7.5], [100.0, 250.5, 999.9], [-3.0, 1.0, 1.5, 2.0]):
     DEGENERATE.append({"xs": _xs, "ys": [float(i) - 0.3 * i * i for i in range(len(_xs))],
                        "calls": ["general_prop", "general_dependent"]})
